@@ -306,7 +306,17 @@ type Interp struct {
 	// name, or returns "" if it is not a term.
 	Term        func(e ast.Expr) string
 	Unsupported string
+	// Shift names a term that the code subtracts from every value it compares
+	// (x - Shift): the result is x in coordinates shifted by that term, and
+	// order between two shifted values is the order between the originals.
+	Shift string
+	// CondHook resolves conditions outside the comparison subset (a boolean
+	// parameter, err != nil); ok=false leaves the condition unsupported.
+	CondHook func(e ast.Expr) (Tri, bool)
 }
+
+// Cond evaluates a boolean expression under the interpreter's ordering.
+func (in *Interp) Cond(e ast.Expr, env map[types.Object]Lin) Tri { return in.cond(e, env) }
 
 // Lin evaluates an integer expression to base+off.
 func (in *Interp) Lin(e ast.Expr, env map[types.Object]Lin) (Lin, bool) {
@@ -337,6 +347,9 @@ func (in *Interp) Lin(e ast.Expr, env map[types.Object]Lin) (Lin, bool) {
 			}
 			if ok1 && ok2 && a.Base == "" && x.Op == token.ADD {
 				return Lin{b.Base, a.Off + b.Off}, true
+			}
+			if ok1 && ok2 && x.Op == token.SUB && in.Shift != "" && b.Base == in.Shift && b.Off == 0 {
+				return a, true
 			}
 		}
 	}
@@ -394,6 +407,11 @@ func (in *Interp) cond(e ast.Expr, env map[types.Object]Lin) Tri {
 				return True
 			}
 			return Unknown
+		}
+	}
+	if in.CondHook != nil {
+		if t, ok := in.CondHook(e); ok {
+			return t
 		}
 	}
 	in.Unsupported = "condition outside the comparison subset: " + types.ExprString(e)
@@ -524,6 +542,45 @@ func (in *Interp) run(list []ast.Stmt, p Path) []Path {
 			}
 		}
 		return out
+	case *ast.SwitchStmt:
+		// a tagged switch over constants, or a tagless one: an if-else chain
+		if x.Init != nil {
+			break
+		}
+		var chain ast.Stmt
+		var deflt *ast.CaseClause
+		var clauses []*ast.CaseClause
+		for _, c := range x.Body.List {
+			cc := c.(*ast.CaseClause)
+			if cc.List == nil {
+				deflt = cc
+				continue
+			}
+			clauses = append(clauses, cc)
+		}
+		if deflt != nil {
+			chain = &ast.BlockStmt{List: deflt.Body}
+		}
+		for i := len(clauses) - 1; i >= 0; i-- {
+			cc := clauses[i]
+			var cond ast.Expr
+			for _, e := range cc.List {
+				var one ast.Expr = e
+				if x.Tag != nil {
+					one = &ast.BinaryExpr{X: x.Tag, Op: token.EQL, Y: e}
+				}
+				if cond == nil {
+					cond = one
+				} else {
+					cond = &ast.BinaryExpr{X: cond, Op: token.LOR, Y: one}
+				}
+			}
+			chain = &ast.IfStmt{Cond: cond, Body: &ast.BlockStmt{List: cc.Body}, Else: chain}
+		}
+		if chain == nil {
+			return in.run(rest, p)
+		}
+		return in.run(append([]ast.Stmt{chain}, rest...), p)
 	case *ast.ReturnStmt:
 		p.End = EndReturn
 		p.Ret = x.Results
